@@ -30,6 +30,7 @@ import (
 	"context"
 	"crypto/ecdsa"
 	"encoding/binary"
+	"encoding/json"
 	"fmt"
 	"math/big"
 	"runtime"
@@ -47,6 +48,7 @@ import (
 	"github.com/ethereum/go-ethereum/consensus/misc/eip1559"
 	"github.com/ethereum/go-ethereum/consensus/misc/eip4844"
 	"github.com/ethereum/go-ethereum/core/rawdb"
+	"github.com/ethereum/go-ethereum/core/state"
 	"github.com/ethereum/go-ethereum/core/types"
 	"github.com/ethereum/go-ethereum/core/types/bal"
 	"github.com/ethereum/go-ethereum/core/vm"
@@ -234,10 +236,11 @@ func c33NewWorld() *c33World {
 		call("FAC_A", c33A, c33FAC, 0, nil),
 		call("CALLK_B", c33B, w.k, 0, c33Word(1)),
 		call("SD_B", c33B, c33D, 0, []byte{1}),
-		call("FUND_D_A", c33A, c33D, 77, nil),
-		call("T_A_X", c33A, c33X, 1234, nil),
 		setcode,
 		call("CALLE_A", c33A, w.addrs[c33E], 0, c33Word(1)),
+		// up to here: the entries whose 0-2 transaction blocks are edited in the quick tier
+		call("FUND_D_A", c33A, c33D, 77, nil),
+		call("T_A_X", c33A, c33X, 1234, nil),
 		// the entries below take part in pairs (quick) and in triples only in the thorough tier
 		call("INC_B", c33B, c33CTR, 0, c33Word(1)),
 		call("FACSD_C", c33C, c33FACSD, 0, nil),
@@ -326,6 +329,70 @@ func (w *c33World) build(c *c33Chain, sel []int) (b *c33Block, err error) {
 	}
 	b.balEnc, err = rlp.EncodeToBytes(b.block.AccessList())
 	return b, err
+}
+
+// observe decodes what the observer contract logged in the reference execution and
+// records which cross-transaction effects it saw (evidence that the enumerated
+// blocks really contain the interactions), and checks the two values that every
+// block must show: the beacon root and the parent hash written by the
+// pre-execution system calls (block-access index 0).
+func (w *c33World) observe(r *mc.R, b *c33Block) error {
+	pos := -1
+	for i, n := range b.names {
+		if n == "OBS_C" {
+			pos = i
+		}
+	}
+	if pos < 0 {
+		return nil
+	}
+	logs := b.ref.res.Receipts[pos].Logs
+	var data []byte
+	for _, l := range logs {
+		if l.Address == c33OBS && len(l.Data) == 320 {
+			data = l.Data
+		}
+	}
+	if data == nil {
+		return fmt.Errorf("observer did not log (status %d)", b.ref.res.Receipts[pos].Status)
+	}
+	word := func(i int) *big.Int { return new(big.Int).SetBytes(data[32*i : 32*i+32]) }
+	if got := common.BytesToHash(data[192:224]); got != w.beacon {
+		return fmt.Errorf("observer read beacon root %x, want %x", got, w.beacon)
+	}
+	if got := common.BytesToHash(data[224:256]); got != b.block.ParentHash() {
+		return fmt.Errorf("observer read parent hash %x, want %x", got, b.block.ParentHash())
+	}
+	before := map[string]bool{}
+	for _, n := range b.names[:pos] {
+		before[n] = true
+	}
+	seen := func(name string, cond bool) {
+		if cond {
+			r.Outcome("observed:" + name)
+		}
+	}
+	seen("counter-written-by-earlier-tx", word(0).Sign() != 0)
+	seen("coinbase-paid-by-earlier-tx", word(1).Sign() != 0)
+	seen("beneficiary-X-funded-by-earlier-tx", word(2).Sign() != 0)
+	seen("D-balance-changed-by-earlier-tx", word(3).Cmp(big.NewInt(1000)) != 0)
+	seen("created-contract-K-has-code", word(4).Sign() != 0)
+	seen("E-delegated-by-earlier-tx", word(9).Sign() != 0)
+	seen("P-funded-by-earlier-tx", word(8).Sign() != 0)
+	// the observations must be explained by the transactions in front of the observer
+	if (word(4).Sign() != 0) != before["FAC_A"] {
+		return fmt.Errorf("EXTCODESIZE(K)=%v but FAC_A before observer: %v", word(4), before["FAC_A"])
+	}
+	if (word(9).Sign() != 0) != before["SETCODE_B"] {
+		return fmt.Errorf("EXTCODESIZE(E)=%v but SETCODE_B before observer: %v", word(9), before["SETCODE_B"])
+	}
+	if (word(8).Sign() != 0) != before["FUND_P"] {
+		return fmt.Errorf("BALANCE(P)=%v but FUND_P before observer: %v", word(8), before["FUND_P"])
+	}
+	if (word(1).Sign() != 0) != (pos > 0) {
+		return fmt.Errorf("BALANCE(coinbase)=%v at position %d", word(1), pos)
+	}
+	return nil
 }
 
 // c33Outcome is everything the statement compares, rendered canonically.
@@ -462,9 +529,19 @@ func (c *c33Chain) sequential(block *types.Block) (*c33Outcome, error) {
 // prefetch hint, trie prefetcher, the chain's caches and vm config), and returns
 // the processor error, or the outcome together with ValidateState's verdict.
 func (c *c33Chain) parallel(block *types.Block) (out *c33Outcome, procErr, valErr error) {
+	procErr = c.parallelDo(block, func(statedb *state.StateDB, res *ProcessResult) {
+		valErr = c.bc.validator.ValidateState(block, statedb, res, false)
+		out = c33Render(res, statedb.IntermediateRoot(c.rules(block)))
+	})
+	return out, procErr, valErr
+}
+
+// parallelDo runs the access-list driven processor and hands the live state and
+// the result to after (before the readers and prefetchers are released).
+func (c *c33Chain) parallelDo(block *types.Block, after func(statedb *state.StateDB, res *ProcessResult)) error {
 	bc := c.bc
 	if !bc.useBALExecution(block, false) {
-		return nil, fmt.Errorf("c33: block is not eligible for access-list driven execution"), nil
+		return fmt.Errorf("c33: block is not eligible for access-list driven execution")
 	}
 	parent := bc.GetHeader(block.ParentHash(), block.NumberU64()-1)
 	var (
@@ -474,17 +551,17 @@ func (c *c33Chain) parallel(block *types.Block) (out *c33Outcome, procErr, valEr
 	execIndex.Store(-1)
 	statedb, cleanup, err := bc.setupExecutionState(parent.Root, block, ExecuteConfig{}, &interrupt, &execIndex)
 	if err != nil {
-		return nil, err, nil
+		return err
 	}
 	defer cleanup(nil)
 	statedb.StartPrefetcher("chain", nil)
 	defer statedb.StopPrefetcher()
 	res, err := bc.processor.Process(context.Background(), block, statedb, bc.jumpDestCache, bc.precompileCache, bc.cfg.VmConfig, &execIndex)
 	if err != nil {
-		return nil, err, nil
+		return err
 	}
-	valErr = bc.validator.ValidateState(block, statedb, res, false)
-	return c33Render(res, statedb.IntermediateRoot(c.rules(block))), nil, valErr
+	after(statedb, res)
+	return nil
 }
 
 // importDry runs the block through the import pipeline's body validation,
@@ -554,8 +631,9 @@ type c33Edit struct {
 }
 
 // c33Edits returns every single edit of the access list (deduplicated by
-// encoding, the identity excluded). nTx is the number of transactions.
-func c33Edits(orig []byte, nTx int) []c33Edit {
+// encoding, the identity excluded). nTx is the number of transactions. Entries
+// for which skip returns true are left alone (see "static entries" in the driver).
+func c33Edits(orig []byte, nTx int, skip func(a c33Acc) bool) []c33Edit {
 	var (
 		out  []c33Edit
 		seen = map[string]bool{string(orig): true}
@@ -574,6 +652,9 @@ func c33Edits(orig []byte, nTx int) []c33Edit {
 	last := uint32(nTx + 1)
 	for ai := range base {
 		a := base[ai]
+		if skip != nil && skip(a) {
+			continue
+		}
 		an := fmt.Sprintf("acct[%d:%x]", ai, a.Address[:2])
 		emit(an+" drop", func(l []c33Acc) []c33Acc { return append(l[:ai], l[ai+1:]...) })
 		emit(an+" duplicate", func(l []c33Acc) []c33Acc {
@@ -635,7 +716,7 @@ func c33Edits(orig []byte, nTx int) []c33Edit {
 				}
 			}
 			// an additional write of the slot at every index it is not written at
-			for idx := uint32(0); idx <= last; idx++ {
+			for _, idx := range []uint32{0, 1, last} {
 				emit(fmt.Sprintf("%s add-write[%d]", sn, idx), func(l []c33Acc) []c33Acc {
 					c := l[ai].Storage[si].Changes
 					for _, w := range c {
@@ -668,7 +749,7 @@ func c33Edits(orig []byte, nTx int) []c33Edit {
 					return l
 				})
 			}
-			for _, idx := range []uint32{0, 1, last} {
+			for _, idx := range []uint32{1, last} {
 				emit(fmt.Sprintf("%s promote-to-write[%d]", rn, idx), func(l []c33Acc) []c33Acc {
 					s := l[ai].Reads[ri]
 					l[ai].Reads = append(l[ai].Reads[:ri], l[ai].Reads[ri+1:]...)
@@ -682,7 +763,7 @@ func c33Edits(orig []byte, nTx int) []c33Edit {
 			})
 		}
 		// extra read / write of every alphabet slot that is not listed
-		for _, s := range []uint64{0, 1, 5} {
+		for _, s := range []uint64{0, 5} {
 			emit(fmt.Sprintf("%s add-read[%d]", an, s), func(l []c33Acc) []c33Acc {
 				if c33HasSlot(l[ai], u(s)) {
 					return l
@@ -730,7 +811,7 @@ func c33Edits(orig []byte, nTx int) []c33Edit {
 				})
 			}
 		}
-		for idx := uint32(0); idx <= last; idx++ {
+		for _, idx := range []uint32{1, last} {
 			emit(fmt.Sprintf("%s add-balance[%d]", an, idx), func(l []c33Acc) []c33Acc {
 				for _, b := range l[ai].Balances {
 					if b.Index == idx {
@@ -773,7 +854,7 @@ func c33Edits(orig []byte, nTx int) []c33Edit {
 				})
 			}
 		}
-		for _, idx := range []uint32{0, 1, last} {
+		for _, idx := range []uint32{1, last} {
 			emit(fmt.Sprintf("%s add-nonce[%d]", an, idx), func(l []c33Acc) []c33Acc {
 				for _, n := range l[ai].Nonces {
 					if n.Index == idx {
@@ -911,8 +992,15 @@ func c33ErrClass(stage string, err error) string {
 }
 
 // checkEdit returns a non-nil error when the edited block is accepted.
-func (c *c33Chain) checkEdit(b *c33Block, e c33Edit, note func(string)) error {
-	// 1. header commits to the edited list, everything else as built.
+//
+// Pass 1: the header commits to the edited list, every other field as built.
+// Pass 2 (the strongest producer): state root, receipt root, bloom, gas used and
+// requests hash are set to what this node itself computes for the edited list, so
+// only the access-list checks (and the processor's own errors) can still reject.
+// Execution does not read those header fields, so pass 2 validates the result of
+// the same execution against the adjusted header; with full it is additionally
+// re-executed through BlockChain.ProcessBlock.
+func (c *c33Chain) checkEdit(b *c33Block, e c33Edit, full bool, note func(string)) error {
 	m, err := c33Mutant(b.block, e.enc, nil)
 	if err != nil {
 		note("rejected:decode")
@@ -922,27 +1010,47 @@ func (c *c33Chain) checkEdit(b *c33Block, e c33Edit, note func(string)) error {
 		note("rejected:" + c33ErrClass("body", err))
 		return nil
 	}
-	out, procErr, valErr := c.parallel(m)
+	var (
+		verdict error
+		m2      *types.Block
+		first   string
+	)
+	procErr := c.parallelDo(m, func(statedb *state.StateDB, res *ProcessResult) {
+		valErr := c.bc.validator.ValidateState(m, statedb, res, false)
+		if valErr == nil {
+			verdict = fmt.Errorf("edited access list accepted by ValidateBody, Process and ValidateState (header fields as built)")
+			return
+		}
+		first = c33ErrClass("state", valErr)
+		m2, err = c33Mutant(b.block, e.enc, &c33Outcome{root: statedb.IntermediateRoot(c.rules(m)), res: res})
+		if err != nil {
+			verdict = fmt.Errorf("internal: %v", err)
+			return
+		}
+		if err := c.bc.validator.ValidateBody(m2); err != nil {
+			verdict = fmt.Errorf("internal: adjusted header fails body validation: %v", err)
+			return
+		}
+		err2 := c.bc.validator.ValidateState(m2, statedb, res, false)
+		if err2 == nil {
+			verdict = fmt.Errorf("edited access list accepted by ValidateState once state root, receipt root, bloom, gas used and requests hash "+
+				"were set to what the node computes for the edited list (as built it was rejected only by: %v)", valErr)
+			return
+		}
+		note("rejected:" + c33ErrClass("state", err2) + " (as-built:" + first + ")")
+	})
 	if procErr != nil {
 		note("rejected:" + c33ErrClass("process", procErr))
 		return nil
 	}
-	if valErr == nil {
-		return fmt.Errorf("edited access list accepted by ValidateBody, Process and ValidateState (header fields as built)")
+	if verdict != nil || !full {
+		return verdict
 	}
-	// 2. the strongest producer: every execution-derived header field is what this
-	// node itself computes for the edited list. Only the access-list comparison
-	// (and the processor's own errors) can reject now.
-	m2, err := c33Mutant(b.block, e.enc, out)
-	if err != nil {
-		return fmt.Errorf("internal: %v", err)
+	if stage, err := c.importDry(m2); err == nil {
+		return fmt.Errorf("edited access list with adjusted header accepted by BlockChain.ProcessBlock")
+	} else if stage != "execute" {
+		return fmt.Errorf("internal: adjusted block rejected at %s: %v", stage, err)
 	}
-	stage, err := c.importDry(m2)
-	if err == nil {
-		return fmt.Errorf("edited access list accepted by the import pipeline once state root, receipt root, bloom, gas used and requests hash "+
-			"were set to what the node computes for the edited list (first pass was rejected only by: %v)", valErr)
-	}
-	note("rejected:" + c33ErrClass(stage, err) + " (first:" + c33ErrClass("state", valErr) + ")")
 	return nil
 }
 
@@ -981,28 +1089,62 @@ func TestVerif_C33(t *testing.T) {
 		defer pool.close()
 
 		nAll := len(w.txs)
-		nTriple := mc.Pick(r, 12, nAll)
-		editPairs := true
-		editTriples := mc.Pick(r, false, true)
+		nCore := 12 // the first nCore entries carry the densest interactions
+		nTriple := mc.Pick(r, nCore, nAll)
+		nEdit := mc.Pick(r, 10, nCore) // 0-2 transaction blocks over the first nEdit entries are edited (thorough: all 0-2 blocks, 3-transaction blocks over nEdit)
+		staticEvery := mc.Pick(r, 16, 1)
 		procs := []int{1, 2, 16}
-		r.Rule("every ordered selection of 2 transactions from the full alphabet and of 3 transactions from its first nTriple entries is one Amsterdam block " +
+		r.Rule("every ordered selection of 0, 1 and 2 transactions from the full alphabet and of 3 transactions from its first alphabet_for_triples entries is one Amsterdam block " +
 			"(selections where the unfunded sender acts before it is funded cannot form a block and are counted as infeasible); " +
-			"oracle A: sequential vs access-list-driven execution per GOMAXPROCS value; oracle B: every single edit of the true access list (distinct encodings) must be rejected; " +
-			"distinct = distinct true access lists (oracle A) and distinct (block, edited list) pairs (oracle B)")
+			"oracle A on every block: sequential vs access-list-driven execution per GOMAXPROCS value; " +
+			"oracle B: every single edit (see c33Edits: drop/duplicate/swap/re-key every account, slot, read, write, balance, nonce and code entry, value +-1, index +-1, " +
+			"demote/promote between read and write, additional reads/writes/balance/nonce/code entries, additional accounts) of the true access list with a distinct encoding must be rejected; " +
+			"quick: edits on 0-2 transaction blocks over the first alphabet_for_edits entries, thorough: on all 0-2 transaction blocks (each edited block also re-executed through BlockChain.ProcessBlock) and on the 3-transaction blocks over the first alphabet_for_edits entries; " +
+			"account entries that are byte-identical to the entry in the transaction-less block (system contracts no transaction touched) are edited on every static_every-th edited block only; " +
+			"distinct = distinct true access lists (oracle A) plus distinct (block, edited list) pairs (oracle B)")
 		r.Bound("alphabet", nAll)
 		r.Bound("alphabet_for_triples", nTriple)
+		r.Bound("alphabet_for_edits", nEdit)
+		r.Bound("static_every", staticEvery)
 		r.Bound("gomaxprocs", procs)
-		r.Bound("edits_on_pairs", editPairs)
-		r.Bound("edits_on_triples", editTriples)
 		r.Assume("worker goroutines of the parallel processor, the access-list prefetcher and the trie prefetcher run free; the oracle does not depend on their schedule (controlled schedules are a separate part of C33)")
-		r.Assume("blocks are built by core.GenerateChain (sequential chain maker); the sequential reference is StateProcessor.Process with DisableParallelExecution")
+		r.Assume("a block is the sequential processor's execution of the selection on genesis with the header completed from that execution (AssembleBlock); the sequential reference is StateProcessor.Process with DisableParallelExecution")
+		r.Assume("pass 2 of oracle B relies on block execution not reading the header's state root, receipt root, bloom, gas used and requests hash (thorough re-executes through ProcessBlock)")
 
 		var all []int
 		for i := 0; i < nAll; i++ {
 			all = append(all, i)
 		}
-		sels := c33Selections(all, 2)
+		sels := [][]int{{}}
+		sels = append(sels, c33Selections(all, 1)...)
+		sels = append(sels, c33Selections(all, 2)...)
 		sels = append(sels, c33Selections(all[:nTriple], 3)...)
+		if r.Replaying() {
+			// only the block of the replayed case (and the transaction-less block) is needed
+			var d struct {
+				Txs []string `json:"txs"`
+			}
+			_ = json.Unmarshal(r.ReplayDescriptor(), &d)
+			var keep [][]int
+			for _, sel := range sels {
+				same := len(sel) == len(d.Txs)
+				for i := 0; same && i < len(sel); i++ {
+					same = w.txs[sel[i]].name == d.Txs[i]
+				}
+				if same || len(sel) == 0 {
+					keep = append(keep, sel)
+				}
+			}
+			sels = keep
+		}
+		inCore := func(sel []int) bool {
+			for _, s := range sel {
+				if s >= nEdit {
+					return false
+				}
+			}
+			return true
+		}
 
 		t0 := time.Now()
 		lap := func(what string) { r.T.Logf("c33 phase %s done at %.1fs", what, time.Since(t0).Seconds()) }
@@ -1021,7 +1163,8 @@ func TestVerif_C33(t *testing.T) {
 			}
 			c := pool.get()
 			defer pool.put(c)
-			r.Case(map[string]any{"phase": "build", "txs": names}, func() error {
+			// built outside r.Case so that later phases can be replayed on their own
+			buildErr := mc.Safely(func() error {
 				b, err := w.build(c, sel)
 				if err != nil {
 					return err
@@ -1049,6 +1192,7 @@ func TestVerif_C33(t *testing.T) {
 				blocks[i] = b
 				return nil
 			})
+			r.Case(map[string]any{"phase": "build", "txs": names}, func() error { return buildErr })
 			if b := blocks[i]; b != nil {
 				r.DistinctHash(mc.Hash64(string(b.balEnc)))
 				st := ""
@@ -1056,6 +1200,9 @@ func TestVerif_C33(t *testing.T) {
 					st += fmt.Sprint(rc.Status)
 				}
 				r.Outcome("built:statuses=" + st)
+				if err := w.observe(r, b); err != nil {
+					r.HarnessError(fmt.Sprintf("c33: %v: %v", b.names, err))
+				}
 				if len(b.ref.res.Requests) > 0 {
 					r.Outcome("built:with-requests")
 				}
@@ -1127,18 +1274,45 @@ func TestVerif_C33(t *testing.T) {
 		runtime.GOMAXPROCS(16)
 
 		// ---- phase 2: oracle B
-		var targets []*c33Block
+		static := map[common.Address]string{}
 		for _, b := range live {
-			if (len(b.sel) == 2 && editPairs) || (len(b.sel) == 3 && editTriples) {
-				targets = append(targets, b)
+			if len(b.sel) == 0 {
+				for _, a := range c33Decode(b.balEnc) {
+					static[a.Address] = string(c33Encode([]c33Acc{a}))
+				}
 			}
 		}
-		var nEdits atomic.Int64
+		if len(static) == 0 {
+			r.HarnessError("c33: transaction-less block missing")
+			return
+		}
+		isStatic := func(a c33Acc) bool { return static[a.Address] == string(c33Encode([]c33Acc{a})) }
+		type target struct {
+			b          *c33Block
+			withStatic bool
+			full       bool
+		}
+		var targets []target
+		for _, b := range live {
+			switch {
+			case len(b.sel) <= 2 && r.Thorough():
+				targets = append(targets, target{b, true, true})
+			case len(b.sel) <= 2 && inCore(b.sel), len(b.sel) == 3 && inCore(b.sel) && r.Thorough():
+				targets = append(targets, target{b, len(targets)%staticEvery == 0 || r.Replaying(), false})
+			}
+		}
+		var nEdits, nStaticBlocks atomic.Int64
 		r.Parallel(len(targets), func(i int) {
-			b := targets[i]
+			tg := targets[i]
+			b := tg.b
 			c := pool.get()
 			defer pool.put(c)
-			edits := c33Edits(b.balEnc, len(b.sel))
+			skip := isStatic
+			if tg.withStatic {
+				skip = nil
+				nStaticBlocks.Add(1)
+			}
+			edits := c33Edits(b.balEnc, len(b.sel), skip)
 			local := map[string]int64{}
 			for _, e := range edits {
 				if r.Expired() {
@@ -1146,11 +1320,10 @@ func TestVerif_C33(t *testing.T) {
 				}
 				desc := map[string]any{"phase": "edit", "txs": b.names, "edit": e.desc}
 				r.Case(desc, func() error {
-					return c.checkEdit(b, e, func(o string) { local[o]++ })
+					return c.checkEdit(b, e, tg.full, func(o string) { local[o]++ })
 				})
 				r.DistinctHash(mc.Hash64(string(b.balEnc) + "|" + string(e.enc)))
-				nEdits.Add(1)
-				if i%97 == 0 && nEdits.Load()%53 == 0 {
+				if n := nEdits.Add(1); n%4099 == 0 {
 					r.Sample(desc)
 				}
 			}
@@ -1158,6 +1331,7 @@ func TestVerif_C33(t *testing.T) {
 				r.OutcomeN("oracleB:"+k, v)
 			}
 		})
+		r.Bound("edited_blocks_with_static_entries", nStaticBlocks.Load())
 		lap("oracleB")
 		r.Bound("edited_blocks", len(targets))
 		r.Bound("edits", nEdits.Load())
